@@ -234,6 +234,17 @@ def _parse_list_rule(rule):
     Provided for backwards compatibility.
     """
 
+    # Anything but a list of strings and lists of strings is not a rule
+    if not isinstance(rule, (list, tuple)) or not all(
+        isinstance(inner_rule, str) or (
+            isinstance(inner_rule, (list, tuple)) and
+            all(isinstance(r, str) for r in inner_rule))
+        for inner_rule in rule
+    ):
+        LOG.error('Failed to understand rule %s', rule)
+        # If the rule is invalid, we'll fail closed
+        return _checks.FalseCheck()
+
     # Empty rule defaults to True
     if not rule:
         return _checks.TrueCheck()
